@@ -35,7 +35,8 @@ def engine_deductive(rep, targets, heap_lemmas=True, term_lemmas=False):
                         'A-RN-INV: whether a stored fact matches does not depend on the fresh variable ids of the per-use copy '
                         '(axiom `matches`, spec/heap.smt2; bounded-checked by the differential runs)',
                         'A-FRESH: Variable() returns an object distinct from every existing one, unbound',
-                        'assumed contracts (not verified): YP.atom (interning dict), YP.makelist (functools.reduce), '
+                        'assumed contracts (not verified): YP.atom (interning dict: one object per name and engine), chain_functions (closure over itertools.chain), '
+                        'A-EXT-REDUCE (functools.reduce over reversed(l) is the right fold: makelist is verified relative to it), '
                         'inspect.signature, sys.get/setrecursionlimit (raises iff the limit is not above the current depth)',
                         'rely at every yield: the consumer changes the database only through the engine API, whose functions '
                         'never change a published list or an Answer object in place (that is itself proved for every mutation '
